@@ -63,25 +63,42 @@ Definition elided (start_of_list end_of_list : Z) : bool * list Z :=
 Definition last_or {A} (l : list A) : Py A :=
   match rev l with x :: _ => Ok x | [] => Raise IndexError end.
 
+(* ---- one right-to-left step of the unpack loops ---- *)
+(* what the loop learns from one `search(txt, endpos=endpos)`: the rightmost number (as
+   text), the endpos of the next iteration (0 ends the loop), whether a "through"
+   connective precedes the number; plus, for lots, the acreage and whether the word
+   "Lot" directly precedes the number *)
+Record rstep := mk_rstep
+  { rs_num : option str; rs_endpos : nat; rs_thru : bool;
+    rs_acreage : option str; rs_word : bool }.
+
+Definition sec_step (txt : str) (endpos : nat) : option (Py rstep) :=
+  match search_pe multisec_regex multisec_regex_ng txt 0 endpos with
+  | None => None
+  | Some x =>
+      Some (do num_s <- get_rightmost sec_groups txt x;
+            do multi <- is_multi sec_groups txt x;
+            Ok (mk_rstep num_s (if multi then start_of_rightmost sec_groups x else 0)
+                         (thru_rightmost sec_groups txt x) None false))
+  end.
+
 (* ---- SecUnpacker ---- *)
 Record sec_unpacked := mk_sec_unpacked
   { su_list : list str; su_flags : list str; su_flag_lines : list flagline }.
 
 Definition two_digit (z : Z) : str := rjust 2 48%N (str_of_Z z).
 
-Fixpoint unpack_sections_loop (fuel : nat) (txt : str) (endpos : nat) (found_through : bool)
-         (working : list str) (flags : list str) (flines : list flagline)
+Fixpoint unpack_sections_loop (step : nat -> option (Py rstep)) (fuel : nat) (endpos : nat)
+         (found_through : bool) (working : list str) (flags : list str) (flines : list flagline)
   : Py sec_unpacked :=
   match fuel with
   | O => Raise OutOfFuel
   | S fuel' =>
-      match search_pe multisec_regex multisec_regex_ng txt 0 endpos with
+      match step endpos with
       | None => Ok (mk_sec_unpacked (rev working) flags flines)
-      | Some x =>
-          do num_s <- get_rightmost sec_groups txt x;
-          do multi <- is_multi sec_groups txt x;
-          let endpos' := if multi then start_of_rightmost sec_groups x else 0 in
-          do n <- int_of_group num_s;
+      | Some ps =>
+          do st0 <- ps;
+          do n <- int_of_group (rs_num st0);
           let new_sec := two_digit n in
           do st <-
              (if found_through then
@@ -96,14 +113,14 @@ Fixpoint unpack_sections_loop (fuel : nat) (txt : str) (endpos : nat) (found_thr
                   Ok (working ++ adds, flags ++ [flag], flines ++ [(flag, fl)])
               else Ok (working ++ [new_sec], flags, flines));
           let '(w', f', fl') := st in
-          unpack_sections_loop fuel' txt endpos' (thru_rightmost sec_groups txt x) w' f' fl'
+          unpack_sections_loop step fuel' (rs_endpos st0) (rs_thru st0) w' f' fl'
       end
   end.
 
 (* the working list is kept in append order (last-to-first of the text) and reversed
    at the end, as the code does *)
 Definition sec_unpacker (txt : str) : Py sec_unpacked :=
-  unpack_sections_loop (S (S (length txt))) txt (length txt) false [] [] [].
+  unpack_sections_loop (sec_step txt) (S (S (length txt))) (length txt) false [] [] [].
 
 (* ---- LotUnpacker ---- *)
 Fixpoint dict_set (k v : str) (d : list (str * str)) : list (str * str) :=
@@ -133,23 +150,32 @@ Record lot_state := mk_lot_state
   { ls_working : list Z; ls_acres : list (str * str); ls_flags : list str;
     ls_flines : list flagline; ls_word_lot : nat }.
 
-Fixpoint unpack_lots_loop (fuel : nat) (txt : str) (endpos : nat) (found_through : bool)
+Definition lot_step (txt : str) (endpos : nat) : option (Py rstep) :=
+  match search_pe multilot_regex multilot_regex_ng txt 0 endpos with
+  | None => None
+  | Some x =>
+      Some (do num_s <- get_rightmost lot_groups txt x;
+            let acreage := get_rightmost_acreage txt x in
+            do multi <- is_multi lot_groups txt x;
+            Ok (mk_rstep num_s (if multi then start_of_rightmost lot_groups x else 0)
+                         (thru_rightmost lot_groups txt x) acreage
+                         (is_some (group txt x multilot_regex_g_word_lot_rightmost))))
+  end.
+
+Fixpoint unpack_lots_loop (step : nat -> option (Py rstep)) (fuel : nat) (endpos : nat) (found_through : bool)
          (st : lot_state) : Py lot_unpacked :=
   match fuel with
   | O => Raise OutOfFuel
   | S fuel' =>
-      match search_pe multilot_regex multilot_regex_ng txt 0 endpos with
+      match step endpos with
       | None =>
           let l := rev (ls_working st) in
           Ok (mk_lot_unpacked (map (fun z => s "L" ++ str_of_Z z) l) (ls_acres st) (ls_flags st)
                               (ls_flines st)
                               (Z.of_nat (length l) - Z.of_nat (ls_word_lot st))%Z)
-      | Some x =>
-          do num_s <- get_rightmost lot_groups txt x;
-          let acreage := get_rightmost_acreage txt x in
-          do multi <- is_multi lot_groups txt x;
-          let endpos' := if multi then start_of_rightmost lot_groups x else 0 in
-          do n <- int_of_group num_s;
+      | Some ps =>
+          do st0 <- ps;
+          do n <- int_of_group (rs_num st0);
           do st1 <-
              (if found_through then
                 do prev <- last_or (ls_working st);
@@ -164,7 +190,7 @@ Fixpoint unpack_lots_loop (fuel : nat) (txt : str) (endpos : nat) (found_through
               else Ok (mk_lot_state (ls_working st ++ [n]) (ls_acres st) (ls_flags st)
                                     (ls_flines st) (ls_word_lot st)));
           let st2 :=
-            match acreage with
+            match rs_acreage st0 with
             | None => st1
             | Some a =>
                 let name := s "L" ++ str_of_Z n in
@@ -177,18 +203,18 @@ Fixpoint unpack_lots_loop (fuel : nat) (txt : str) (endpos : nat) (found_through
                   end in
                 mk_lot_state (ls_working st1) (dict_set name a (ls_acres st1)) fl fll (ls_word_lot st1)
             end in
-          let ft := thru_rightmost lot_groups txt x in
+          let ft := rs_thru st0 in
           let st3 :=
-            if is_some (group txt x multilot_regex_g_word_lot_rightmost) && negb ft then
+            if rs_word st0 && negb ft then
               mk_lot_state (ls_working st2) (ls_acres st2) (ls_flags st2) (ls_flines st2)
                            (length (ls_working st2))
             else st2 in
-          unpack_lots_loop fuel' txt endpos' ft st3
+          unpack_lots_loop step fuel' (rs_endpos st0) ft st3
       end
   end.
 
 Definition lot_unpacker (txt : str) : Py lot_unpacked :=
-  unpack_lots_loop (S (S (length txt))) txt (length txt) false (mk_lot_state [] [] [] [] 0).
+  unpack_lots_loop (lot_step txt) (S (S (length txt))) (length txt) false (mk_lot_state [] [] [] [] 0).
 
 (* ---- unpack_twprge ---- *)
 Definition str_int_or_keep (t : str) : str :=
